@@ -1,8 +1,15 @@
 """Definition of the three neighbour searches by exhaustive scan (no shared code with the repository)."""
 
 
+BISECT_ABOVE = 2000       # long arrays: the same definitions by binary search (the array is strictly increasing)
+
+
 def lower(x, q, fill=True):
     """index of the largest element <= q; below the range: 0 (fill) or -1."""
+    if len(x) > BISECT_ABOVE:
+        import bisect
+        i = bisect.bisect_right(x, q) - 1
+        return i if i >= 0 else (0 if fill else -1)
     best = None
     for i, v in enumerate(x):
         if v <= q:
@@ -14,6 +21,10 @@ def lower(x, q, fill=True):
 
 def higher(x, q, fill=True):
     """index of the smallest element >= q; above the range: len-1 (fill) or len."""
+    if len(x) > BISECT_ABOVE:
+        import bisect
+        i = bisect.bisect_left(x, q)
+        return i if i < len(x) else (len(x) - 1 if fill else len(x))
     for i, v in enumerate(x):
         if v >= q:
             return i
